@@ -3,7 +3,7 @@ recognise the (narrow) signatures of the open findings listed in known_findings.
 
 PROPS = {}
 NOT_CLAIMED = {}
-HOOK_COMMITS = ["16a14b9", "e75c637", "1973121"]
+HOOK_COMMITS = ["16a14b9", "e75c637", "1973121", "54a7376"]
 
 PROPS["C05"] = dict(
     level_text="Bounded-exhaustive model checking of the reader state machine against the reference tokenisation over all inputs up to K "
@@ -375,7 +375,9 @@ PROPS["C06"] = dict(
                "argument delivered once and in order (count + hash per invocation); TLC validates the runs, and direct execve probes near the "
                "model's boundary calibrate the kernel model (a mismatch is a tool error, never a violation).",
     level_note="Trusted: TLC; the recorder's summaries; the Linux rules as modelled - checked against the running kernel by the probes on every run.",
-    mc=[dict(module="mc/MC_C06.tla", cfg=dict(quick="mc/MC_C06_quick.cfg", thorough="mc/MC_C06_thorough.cfg"), workers=8)],
+    mc=[dict(module="mc/MC_C06.tla", cfg=dict(quick="mc/MC_C06_quick.cfg", thorough="mc/MC_C06_thorough.cfg"), workers=8),
+        # -I: the measurement of the substituted command line against the kernel's rule (never refused, never over-strict)
+        dict(module="mc/MC_Repl.tla", cfg=dict(quick="mc/MC_Repl.cfg", thorough="mc/MC_Repl_thorough.cfg"), workers=4)],
     record=dict(quick=44, thorough=480),
     selftest=dict(quick=10, thorough=40),
     trace=dict(module="trace/T_C06.tla", cfg="trace/T_C06.cfg"),
